@@ -32,6 +32,7 @@ struct P<S, D> {
 impl<S, D> P<S, D>
 where
     S: IntS,
+    <S as Sample>::Signed: 'static,
     D: IntS + FromSample<S>,
 {
     #[inline]
@@ -42,6 +43,19 @@ where
         let g2: D = D::from_sample(s);
         let g3: D = (self.conv)(s);
         let (r1, r2, r3) = (g1.raw(), g2.raw(), g3.raw());
+        // route 4, where the destination is the source's associated `Signed` format: the
+        // `to_signed_sample` method (a provided trait method that an impl may override)
+        if std::any::TypeId::of::<D>() == std::any::TypeId::of::<<S as Sample>::Signed>() {
+            let g4 = s.to_signed_sample();
+            let r4 = (&g4 as &dyn std::any::Any).downcast_ref::<D>().map(|d| d.raw()).unwrap_or(want);
+            if r4 != want {
+                rep.violation(
+                    &format!("conv|{}->{}|to_signed_sample_route", S::FMT.name, D::FMT.name),
+                    format!("{}({}).to_signed_sample() = {} but to_sample/from_sample/conv give {} (spec {})", S::FMT.name, raw, r4, r1, want),
+                    format!("src={};dst={};v={}", S::FMT.name, D::FMT.name, raw),
+                );
+            }
+        }
         if r1 != want || r2 != want || r3 != want {
             let class = if !D::FMT.in_range(r1) || !D::FMT.in_range(r3) {
                 "out_of_range"
@@ -79,6 +93,7 @@ where
 impl<S, D> PairJob for P<S, D>
 where
     S: IntS,
+    <S as Sample>::Signed: 'static,
     D: IntS + FromSample<S>,
 {
     fn src(&self) -> IntFmt {
